@@ -471,6 +471,9 @@ class Interp2(Interp):
         if isinstance(o, SymObj):
             if name == '__class__':
                 return o.cls
+            ov = self.st.overlay.get((o.t.get_id(), name))
+            if ov is not None:
+                return ov[1]
             v = self.symobj_field(o, name)
             if v is not None:
                 return v
@@ -590,8 +593,11 @@ class Interp2(Interp):
             if hasattr(o, '__dict__') and name in o.__dict__:
                 return o.__dict__[name]
             raw = self.find_class_attr(cls, name)
-            if raw is None:
-                self.raise_exc(AttributeError, name)
+            if raw is None or isinstance(raw, types.MemberDescriptorType):
+                try:
+                    return getattr(o, name)         # slot / instance attribute of a live object
+                except AttributeError:
+                    self.raise_exc(AttributeError, name)
             return self.bind_class_attr(raw, o, cls)
         try:
             r = getattr(o, name)
